@@ -130,6 +130,7 @@ fn one(e: &Enc, source: Source, scalars: &[u32], stats: &mut Stats, vios: &mut V
         .set("encoding", J::s(e.name))
         .set("source", J::s(if source == Source::Utf8 { "utf8" } else { "utf16" }))
         .set("sink", J::s("slice"))
+        .set("loop", J::Bool(true))
         .set("repl", J::Bool(true))
         .set("calls", J::Arr(vec![crate::xenc::ECallRec { units: scalars.to_vec(), cap: scalars.len() * 12 + 64, last: true, fill: 0, dalign: 0, fresh: true, method: 2 }.to_json()]))
         .set("detail", J::obj().set("message", J::s(&msg)));
